@@ -85,3 +85,8 @@ Definition class_dir_ok (T : tables) (cls : Z) (e : entry) : bool :=
   else if cls =? t_credits T then credit_or_debit (en_code e) =? 1
   else if cls =? t_debits T then credit_or_debit (en_code e) =? 2
   else true.
+
+(* ---- an entry with its transaction code replaced (File.Reversal) ----------------- *)
+
+Definition recode (f : Z -> Z) (e : entry) : entry :=
+  mkentry (f (en_code e)) (en_amount e) (en_rdfi e) (en_check e) (en_trace e) (en_addenda e).
